@@ -112,6 +112,21 @@ Theorem C08_gamma0_compact_pairwise : forall t tau Sk SI SS R Nk twoM N,
   vnth 1 (take_last 2 a) == vnth 0 (take_last 3 b).
 Proof. exact gamma0_compact_pairwise. Qed.
 
+(* heterogeneous mean-field: the SIR system is written in (theta, Rk) with S_k = S0_k theta^k.
+   Full statement: for gamma = 0 the S-subsystems of the SIS and SIR versions coincide.
+   Proved (_partial): with no recovered nodes (Rk = 0, preserved when gamma = 0) the SIS right-hand
+   side for S_k equals k S0_k theta^(k-1) theta', the chain-rule image of the SIR right-hand side
+   for theta (that d/dt S0_k theta^k is this expression is the chain rule, taken as given). *)
+Theorem C08_gamma0_heterogeneous_meanfield_partial : forall t tau theta S0 Nk n,
+  ~ theta == 0 -> length S0 = n -> length Nk = n ->
+  let Sk := vmul S0 (spow_arange theta n) in
+  let Ik := vsub Nk Sk in
+  let sis := dSIS_heterogeneous_meanfield (Sk ++ Ik) t n tau 0 in
+  let sir := dSIR_heterogeneous_meanfield ([theta] ++ zeros n) t S0 Nk tau 0 in
+  forall k, (k < n)%nat ->
+    nth k (slice_to n sis) 0 == Qnat k * nth k S0 0 * qpow theta (Z.of_nat k - 1) * vnth 0 sir.
+Proof. exact gamma0_heterogeneous_meanfield_partial. Qed.
+
 (* ---------------- final sizes ---------------- *)
 (* for tau + gamma > 0: dtheta/dt = 0 in _dEBCM_  <->  theta = F(theta), F the map iterated by Attack_rate_cts_time *)
 Theorem C08_attack_cts_fixed_point : forall t N tau g phiS0 phiR0 (ps psP : Q -> Q) theta R,
@@ -189,6 +204,7 @@ Print Assumptions C08_tau0_SIR_compact_effective_degree.
 Print Assumptions C08_gamma0_homogeneous_meanfield.
 Print Assumptions C08_gamma0_homogeneous_pairwise.
 Print Assumptions C08_gamma0_compact_pairwise.
+Print Assumptions C08_gamma0_heterogeneous_meanfield_partial.
 Print Assumptions C08_attack_cts_fixed_point.
 Print Assumptions C08_attack_cts_dtheta.
 Print Assumptions C08_attack_cts_ret_is_final_R.
